@@ -44,13 +44,15 @@ def scene_case(spec):
     radi = S.build(cfg)
     src = S.draw_inside(rng, cfg["dims"])
     recs = [S.draw_inside(rng, cfg["dims"])]
-    c, dt, dur = P.draw_timing(rng, cfg, K, "long", radi, src, recs)
+    tmode = ["long", "short", "coarse"][spec["idx"] % 3]
+    c, dt, dur = P.draw_timing(rng, cfg, K, tmode, radi, src, recs)
     tag = dict(dims=cfg["dims"], patch_size=cfg["patch_size"], n_patches=cfg["n_patches"], nb=nb,
                nt=cfg["nt"], nphi=cfg["nphi"], random_tables=cfg["random_tables"],
                att=cfg["att"].tolist(), src=src.tolist(), rec=recs[0].tolist(), c=c, dt=dt, dur=dur, K=K,
                seed=spec["seed"], idx=spec["idx"])
     out["sample"] = tag
     out["dist"]["bands_%d" % nb] = 1
+    out["dist"]["window_" + tmode] = 1
     out["dist"]["tables_random" if cfg["random_tables"] else ("multi_dir" if cfg["nt"] else "lambert_1dir")] = 1
 
     impl = P.impl_pipeline(radi, src, c, dt, dur, K, recs, direct=True)
@@ -89,7 +91,7 @@ def scene_case(spec):
 
 def run(res):
     quick = res.tier == "quick"
-    specs = [dict(seed=res.seed, idx=i, max_patches=(16 if quick else 30)) for i in range(9 if quick else 90)]
+    specs = [dict(seed=res.seed, idx=i, max_patches=(16 if quick else 30)) for i in range(12 if quick else 120)]
     for r in fw.run_parallel(scene_case, specs):
         res.absorb(r)
     res.rule = ("shoebox scenes with 2-6 bands, band-dependent absorption / random tables / attenuation; the "
